@@ -293,7 +293,7 @@ def run_expr(prog, tk):
         prev = None
         for off, (mn, mt) in zip((0, 8, 16), MEMBERS.items()):
             m = Obj('member:' + mn, 'heap')
-            m.f.update({('name',): Ptr(it.mkstr(list(mn.encode()), mn), (0,)), ('type',): T(mt), ('qual',): 0, ('offset',): off, ('bits', 'before'): 0, ('bits', 'after'): 0, ('next',): None})
+            m.f.update({('name',): Ptr(it.mkstr(list(mn.encode()), mn), (0,)), ('type',): T(mt), ('qual',): 0, ('offset',): off, ('bits', 'before'): 0, ('bits', 'after'): 0, ('bitfield',): 0, ('next',): None})
             if prev is None: S.obj.f[('u', 'structunion', 'members')] = Ptr(m, ())
             else: prev.f[('next',)] = Ptr(m, ())
             prev = m
